@@ -159,6 +159,17 @@ def _fit_missing_fh(fname):
     return run
 
 
+def _refit_missing_fh(fname):
+    """the same on an instance that was fitted before: the earlier horizon is no substitute, and another valid horizon is accepted"""
+    def run(cx):
+        f, g = zoo.build(FORECASTERS[fname]), zoo.build(FORECASTERS[fname])
+        f.fit(cx.y.copy(), fh=cx.fh)
+        g.fit(cx.y.copy(), fh=cx.fh)
+        other = [h + 1 for h in cx.fh]
+        return (lambda: f.fit(cx.y.copy())), (lambda: g.fit(cx.y.copy(), fh=other).predict()), f
+    return run
+
+
 def _setting_cell(kind, param, value):
     def run(cx):
         from sktime.forecasting.compose import make_reduction
@@ -371,6 +382,7 @@ for _f in FORECASTERS:
         _add("update:%s:y:%s" % (_f, _c), _update_cell(_f, _c))
 for _f in ("reduce-dir", "stack"):
     _add("fit:%s:fh:missing" % _f, _fit_missing_fh(_f))
+    _add("refit:%s:fh:missing" % _f, _refit_missing_fh(_f))
 for _v in BADINT:
     _add("setting:naive:window_length:%r" % (_v,), _setting_cell("naive", "window_length", _v))
     _add("setting:naive:sp:%r" % (_v,), _setting_cell("naive", "sp", _v))
